@@ -393,22 +393,18 @@ func c19raceOne(r *rng.R, name, which string) error {
 		s.probe[s.start+1] = true
 		s.events = append(s.events, Ev{"alloc", opener.Tid, 1, tyOPN}, Ev{"reg", opener.Tid}, Ev{"write", opener.Tid, true},
 			Ev{"net", s.start + 1, tyOPN, 0, opener.Tid}, Ev{"pop"}, Ev{"timer", opener.Tid})
+		s.uid++ // the server's own OpenSecureChannelResponse was frame 0
 		taken[opener.Tid] = true
 		s.emitC19("renew-timed-out", map[string]interface{}{"expect_ok": []int{}, "disp": 2})
-		// now the dispatcher goes on: locks the gate, delivers into the abandoned channel, waits at the gate
+		// now the dispatcher goes on: open() has given up, so it must not lock the gate; it delivers into the
+		// abandoned channel and reads on. A later request is answered.
 		ctl.Free("disp")
-		time.Sleep(30 * time.Millisecond)
-		s.events = append(s.events, Ev{"lock"}, Ev{"deliver"})
-		b := s.newCaller(tyWrite, 150*time.Millisecond)
-		if err := s.launch([]*Caller{b}); err != nil {
+		s.events = append(s.events, Ev{"lock"}, Ev{"deliver"}, Ev{"resume"})
+		b, err := s.healthyCall(taken)
+		if err != nil {
 			return err
 		}
-		if err := s.frameNoEvent("ok", s.idOf[b.Tid], b.Tid, tyWrite); err != nil {
-			return err
-		}
-		s.wait(b, 3*time.Second)
-		s.settle(taken)
-		s.emitC19("after", map[string]interface{}{"expect_ok": []int{b.Tid}, "disp": 4,
+		s.emitC19("after", map[string]interface{}{"expect_ok": []int{b.Tid}, "disp": -1,
 			"server_answered": []int{b.Tid}})
 
 	case "unsolicited-opn":
@@ -424,19 +420,18 @@ func c19raceOne(r *rng.R, name, which string) error {
 		if err := p.Srv.RawMsg(s.idOf[a.Tid], 900001, resp); err != nil {
 			return err
 		}
-		s.events = append(s.events, Ev{"net", s.idOf[a.Tid], tyOPN, 0, -1}, Ev{"pop"}, Ev{"lock"}, Ev{"deliver"})
+		s.events = append(s.events, Ev{"net", s.idOf[a.Tid], tyOPN, 0, -1}, Ev{"pop"}, Ev{"lock"}, Ev{"deliver"}, Ev{"resume"})
 		s.wait(a, 3*time.Second)
 		s.settle(taken)
-		b := s.newCaller(tyWrite, 150*time.Millisecond)
-		if err := s.launch([]*Caller{b}); err != nil {
+		b, err := s.healthyCall(taken)
+		if err != nil {
 			return err
 		}
-		if err := s.frameNoEvent("ok", s.idOf[b.Tid], b.Tid, tyWrite); err != nil {
-			return err
+		var cerrs []string
+		for len(p.ErrCh) > 0 {
+			cerrs = append(cerrs, (<-p.ErrCh).Error())
 		}
-		s.wait(b, 3*time.Second)
-		s.settle(taken)
-		s.emitC19("after", map[string]interface{}{"expect_ok": []int{b.Tid}, "disp": 4, "server_answered": []int{b.Tid}})
+		s.emitC19("after", map[string]interface{}{"expect_ok": []int{b.Tid}, "disp": -1, "server_answered": []int{b.Tid}, "client_errors": cerrs})
 	default:
 		return fmt.Errorf("unknown race scenario %s", which)
 	}
